@@ -8,6 +8,22 @@ def run(ctx):
     # S1: the sequential specification itself
     vlib.mc(ctx, "MC_Store", "MC_Store_quick.cfg" if quick else "MC_Store_thorough.cfg", timeout=1500)
 
+    # S1u: the same sequential store for UNBOUNDED versions / clocks / histories: Apalache shows IndInv inductive and the action
+    # properties (version discipline, creation time constant within an incarnation, never removed with finalizers, failed calls
+    # leave the store untouched, one key per step) for every step from every state satisfying it (spec/ApaStore.tla)
+    vlib.apalache(ctx, "ApaStore", "Init", "IndInv", 0)
+    vlib.apalache(ctx, "ApaStore", "IndInit", "IndInv", 1)
+    vlib.apalache(ctx, "ApaStore", "IndInit", "ActionInv", 1)
+    if not quick:
+        # non-vacuity: a store that forgets the finalizer check of Destroy must be refuted by the same run
+        mut = ctx.sub("apamut")
+        src = open(os.path.join(vlib.SPEC, "ApaStore.tla")).read()
+        assert 'ELSE IF c.fins # {} THEN "conflict"' in src
+        open(os.path.join(mut, "ApaStoreMut.tla"), "w").write(
+            src.replace("MODULE ApaStore", "MODULE ApaStoreMut").replace('ELSE IF c.fins # {} THEN "conflict"', 'ELSE IF FALSE THEN "conflict"'))
+        vlib.apalache(ctx, "ApaStoreMut", "IndInit", "ActionInv", 1, expect="Error", specdir=mut)
+        ctx.cov["binding_selftest"].append({"apalache_mutant": "Destroy without the finalizer check", "refuted": True})
+
     # S2: TLC-generated request sequences replayed on every stack
     nb, depth = (60, 25) if quick else (600, 40)
     behs = vlib.gen_behaviours(ctx, "MC_Store", "Gen_Store.cfg", num=nb, depth=depth,
